@@ -499,6 +499,45 @@ pub fn c09(ctx: &mut Ctx) {
             }
         });
     }
+    // ... and when the datagram is large: mid-size well-formed packets whose total passes 65507, 65536 and 262144 bytes
+    {
+        let sp = bytes::big_chain_space();
+        let n = sp.len / 4; // the exactly tiled quarter of the space
+        let get = &sp.get;
+        ctx.bound("(a) in large datagrams", "datagrams of 1100 / 1400 / 4000 / 24000-byte well-formed packets whose total crosses 65507, 65536 and 262144 bytes: accepted, every tile yielded Ok");
+        ctx.run_space("wellformed:large-datagrams", n, |idx, l| {
+            let mut buf = Vec::new();
+            get(idx, &mut buf);
+            l.evals += 1;
+            l.states += 1;
+            l.sample(|| format!("{} bytes", buf.len()));
+            let tiles = crate::refmodel::read::tile(&buf).expect("the space makes exact tilings");
+            let r = guard::catch(|| -> Result<(), String> {
+                let c = Compound::parse(&buf).map_err(|e| format!("Compound::parse = {:?}", e))?;
+                let mut k = 0usize;
+                for item in c.take(tiles.len() + 2) {
+                    let (a, b) = *tiles.get(k).ok_or("more items than tiles")?;
+                    let p = item.map_err(|e| format!("tile {} of {} (offset {}): {:?}", k, tiles.len(), a, e))?;
+                    let alone = Packet::parse(&buf[a..b]).map_err(|e| format!("Packet::parse of tile {}: {:?}", k, e))?;
+                    if !super::framing::packet_results_equal(&Ok(p), &Ok(alone)) {
+                        return Err(format!("tile {} of {} differs from Packet::parse of its bytes", k, tiles.len()));
+                    }
+                    k += 1;
+                }
+                if k != tiles.len() {
+                    return Err(format!("{} items for {} tiles", k, tiles.len()));
+                }
+                Ok(())
+            });
+            l.transitions += tiles.len() as u64 + 1;
+            l.validated += 1;
+            match r {
+                Err(pi) => l.subject_panic("datagram-of-wellformed-packets", &pi, || format!("{} tiles, {} bytes", tiles.len(), buf.len())),
+                Ok(Err(m)) => l.violation("wellformed-rejected:in-a-datagram", || format!("{} well-formed tiles, {} bytes", tiles.len(), buf.len()), || m),
+                Ok(Ok(())) => l.hit("datagram of well-formed packets accepted tile by tile"),
+            }
+        });
+    }
     for k in ["accepted:SenderReport", "accepted:ReceiverReport", "accepted:App", "accepted:Bye", "accepted:TransportFeedback", "accepted:PayloadFeedback", "accepted:Unknown", "accepted:ReportBlock"] {
         ctx.require_hit(k);
     }
